@@ -10,7 +10,8 @@
    sel_sum o ps c P : the per-commodity sum of `amt o` over the postings selected by `sel o`
          that satisfy P - the specification every total is compared with. *)
 From LedgerV Require Import Base.Prelude Base.Round Model.Amount Proofs.AmountProofs
-                            Model.Totals Proofs.TotalsProofs.
+                            Model.Totals Proofs.TotalsProofs
+                            Gen.DeferredPosts Model.Deferred Proofs.DeferredProofs.
 Local Open Scope Q_scope.
 
 (* ---- the reports are total functions: no option set makes account_t::total, the register or
@@ -245,6 +246,59 @@ Theorem inferred_posting_is_ordinary_for_register : forall ord o ps,
 Proof. exact reg_rows_as_written. Qed.
 Print Assumptions inferred_posting_is_ordinary_for_register.
 
+(* ---- deferred postings (`<Account>`, POST_DEFERRED; Model/Deferred.v).  js : the journal in file
+        order, each posting with its deferred flag and the id of its transaction (UUID tag, else the
+        sequence number).  The register walks js; the balance report sums account->posts, which a
+        deferred posting reaches through account_t::add_deferred_post / apply_deferred_posts.  The
+        shape of those functions is regenerated from the source (Gen/DeferredPosts.v) ---- *)
+Theorem deferred_source_shape :
+  src_deferred_recognised = true /\
+  src_deferred_new_id_keeps_post = true /\
+  src_deferred_known_id_appends = true /\
+  src_deferred_apply_adds_every_post = true /\
+  src_finalize_defers_by_xact_id = true.
+Proof. exact deferred_source_facts. Qed.
+Print Assumptions deferred_source_shape.
+
+(* account->posts of a holds exactly the postings of the journal to a, each once: for any ids,
+   any number of deferred postings of one transaction to one account, any interleaving *)
+Theorem deferred_postings_all_reach_their_account : forall a js,
+  Permutation.Permutation (acct_final a js) (filter (to_acct a) js).
+Proof. exact acct_final_perm. Qed.
+Print Assumptions deferred_postings_all_reach_their_account.
+
+Theorem accounts_hold_the_journal : forall js,
+  Permutation.Permutation (account_view js) (map jp_post js).
+Proof. exact account_view_perm. Qed.
+Print Assumptions accounts_hold_the_journal.
+
+Theorem deferred_balance_never_fails : forall ord o js a, exists v, bal_total_of ord o js a = Ok v.
+Proof. exact bal_total_of_ok. Qed.
+Print Assumptions deferred_balance_never_fails.
+
+(* the balance over what reached the accounts = the register rows (file order) under the account *)
+Theorem bal_eq_reg_deferred : forall ord ord' o js a v rows c,
+  bal_total_of ord o js a = Ok v ->
+  reg_rows_of ord' o js = Ok rows ->
+  den v c == sumq (fun r => den (r_amt r) c) (filter (fun r => is_prefix a (r_acct r)) rows).
+Proof. exact bal_eq_reg_deferred_gen. Qed.
+Print Assumptions bal_eq_reg_deferred.
+
+Theorem own_eq_reg_deferred : forall ord ord' o js a v rows c,
+  own_of ord o (account_view js) a = Ok v ->
+  reg_rows_of ord' o js = Ok rows ->
+  den v c == sumq (fun r => den (r_amt r) c) (filter (fun r => path_eqb (r_acct r) a) rows).
+Proof. exact own_deferred_gen. Qed.
+Print Assumptions own_eq_reg_deferred.
+
+Theorem last_running_total_is_grand_total_deferred : forall ord ord' o js g rows r c,
+  bal_total_of ord o js [] = Ok g ->
+  reg_rows_of ord' o js = Ok rows ->
+  nth_error rows (length rows - 1) = Some r ->
+  den (r_total r) c == den g c.
+Proof. exact grand_deferred_gen. Qed.
+Print Assumptions last_running_total_is_grand_total_deferred.
+
 (* ---- lots: whatever lot details are kept, the displayed value has, for every base commodity s,
         the sum of all annotated variants of s in the exact value (showing lots refines a total
         but never changes its per-commodity sum) ---- *)
@@ -281,4 +335,12 @@ Proof. vm_compute. reflexivity. Qed.
 Example ex_cleared_only :
   total_of true (mkOpts false SCleared [] None None false false false false false None false) ex_posts [] =
   Ok (VAmt (ex_amt 5 [88; 126; 49; 126; 126])).
+Proof. vm_compute. reflexivity. Qed.
+
+(* one transaction (id "5") defers two postings to the same account A:B; both are in account->posts *)
+Example ex_two_deferred_same_account :
+  let j k d := mkJpost (nth k ex_posts (mkPost 0 [] Uncleared Uncleared [] false (ex_amt 0 []) None 0 false false)) d [53] in
+  map jp_post (acct_final [[65]; [66]] [j 0%nat true; j 1%nat false; j 0%nat true; j 2%nat true]) =
+  [nth 0%nat ex_posts (mkPost 0 [] Uncleared Uncleared [] false (ex_amt 0 []) None 0 false false);
+   nth 0%nat ex_posts (mkPost 0 [] Uncleared Uncleared [] false (ex_amt 0 []) None 0 false false)].
 Proof. vm_compute. reflexivity. Qed.
